@@ -27,6 +27,24 @@ def run(res):
         shape = rng.choice(numgen.SHAPES)
         n = rng.choice([rng.randint(10, 1001), rng.randint(10, 300), rng.randint(1001, 5000)])
         cases.append((dt, rng.randint(0, 12), numgen.gen(dt, shape, n, rng)))
+    # very smooth data, for which the chooser goes up to the highest orders (6, 7)
+    import math
+    for dt in ["i64", "i128", "u64", "i32", "f64", "tsnanos", "u128"]:
+        lo, hi = numgen.raw_range(dt)
+        for deg in (5, 6, 7, 8, 9):
+            for n in (60, 200, 1000, 1500):
+                xs = []
+                for i in range(n):
+                    v = i ** deg
+                    if dt[0] == "f":
+                        import struct
+                        v = struct.unpack(">Q", struct.pack(">d", float(v)))[0]
+                    v = max(lo, min(hi, v))
+                    xs.append(v)
+                cases.append((dt, rng.randint(0, 12), xs))
+        if dt[0] != "f":
+            amp = min(hi, 10 ** 18)
+            cases.append((dt, 8, [max(lo, min(hi, int(round(amp / 2 + amp / 2.5 * math.sin(i / 50.0))))) for i in range(3000)]))
     if thorough:
         for _ in range(6):
             dt = rng.choice(["i32", "f64", "u16", "i64"])
